@@ -6,10 +6,10 @@ several models and files.  Oracle: reference file-store model."""
 import copy
 
 from qsim import plan as P
-from qsim.core import Run, SimCrash
+from qsim.core import Run, SimCrash, teq
 
 PROP = "C11"
-QUICK_RUNS = 4800
+QUICK_RUNS = 8000
 RULE = (
     "one case = one seeded history of 4-14 operations over 3 models (two of equal shape) and 4 files on a simulated "
     "disk: randomise / train / reinitialise / add user unitary / save with metadata object (None, {}, flat, nested, "
@@ -28,7 +28,7 @@ ASSUMPTIONS = [
     "locations are str paths (autoload on a file object reads the stream twice and is outside the property)",
 ]
 
-MD_KINDS = ["none", "empty", "flat", "nested", "tensor"]
+MD_KINDS = ["none", "empty", "flat", "nested", "tensor", "tuple"]
 PATHS = ["/ckpt/p0.pt", "/ckpt/p1.pt", "/ckpt/p2.pt", "/ckpt/p3.pt"]
 
 
@@ -40,7 +40,7 @@ def generate(seed, tier):
     models = [a, b, c]
     md_slots = [r.choice(MD_KINDS) for _ in range(3)]
     if r.random() < 0.7:
-        md_slots[0] = r.choice(["flat", "nested", "tensor"])
+        md_slots[0] = r.choice(["flat", "nested", "tensor", "tuple"])
     nops = r.randint(4, 14)
     ops = []
     faulty = r.random() < 0.4  # separate stratum: fault-free histories judge the ordinary rules alone
@@ -54,7 +54,7 @@ def generate(seed, tier):
         elif m < 0.22:
             ops.append({"op": "train", "m": mi, "sub": P.s64(r), "dseed": P.s64(r)})
         elif m < 0.27:
-            ops.append({"op": "add_unitary", "m": mi, "name": r.choice(["Q", "R"]), "th": round(r.uniform(0.1, 3.0), 3)})
+            ops.append({"op": "add_unitary", "m": mi, "name": r.choice(["Q", "R", "Q", "X", "Y", "Z"]), "th": round(r.uniform(0.1, 3.0), 3)})
         elif m < 0.62:
             op = {"op": "save", "m": mi, "path": r.choice(PATHS), "md": r.randrange(0, 3)}
             if faulty and r.random() < 0.35:
@@ -87,6 +87,8 @@ def _make_md(kind, torch):
         return {"cfg": {"sizes": [1, 2, 3], "tags": {"a": "b"}}, "history": [0.5, 0.25]}
     if kind == "tensor":
         return {"target": torch.arange(6, dtype=torch.double).reshape(2, 3) / 7.0, "ids": torch.tensor([3, 1, 2])}
+    if kind == "tuple":
+        return {"lattice": (2, 3), "pair": (torch.ones(2, dtype=torch.double), torch.zeros(1)), "cfg": {"window": (1, 2.5, "x"), "flag": True, "none": None}}
     raise ValueError(kind)
 
 
@@ -105,7 +107,7 @@ def execute(plan):
 
     def deq(a, b):
         if isinstance(a, torch.Tensor) or isinstance(b, torch.Tensor):
-            return isinstance(a, torch.Tensor) and isinstance(b, torch.Tensor) and a.dtype == b.dtype and a.shape == b.shape and torch.equal(a, b)
+            return isinstance(a, torch.Tensor) and isinstance(b, torch.Tensor) and teq(a, b)
         if isinstance(a, dict) or isinstance(b, dict):
             if not (isinstance(a, dict) and isinstance(b, dict)) or list(a.keys()) != list(b.keys()):
                 if isinstance(a, dict) and isinstance(b, dict) and set(a.keys()) == set(b.keys()):
@@ -139,7 +141,7 @@ def execute(plan):
                 ok = False
                 continue
             for k, v in s["nets"][net].items():
-                if cur[k].shape != v.shape or cur[k].dtype != v.dtype or not torch.equal(cur[k], v):
+                if not teq(cur[k], v):
                     run.violate(rule, f"{what}: parameter {net}.{k} is not bit-identical", net=net, name=k, **detail)
                     ok = False
         sizes = (st.num_visible, st.num_hidden, getattr(st, "num_aux", None) if "num_aux" in st.__dict__ else None)
@@ -153,7 +155,7 @@ def execute(plan):
                 ok = False
             else:
                 for k, v in s["udict"].items():
-                    if not (ud[k].shape == v.shape and ud[k].dtype == v.dtype and torch.equal(ud[k], v)):
+                    if not teq(ud[k], v):
                         run.violate(rule, f"{what}: unitary '{k}' is not bit-identical", **detail)
                         ok = False
         return ok
@@ -213,9 +215,20 @@ def execute(plan):
                 same_model(st2, rec["snap"], f"acknowledged file {path} {after}", "11-durable", after=after)
                 compared += 1
 
+        def bystanders_unchanged(targets, what):
+            for mi_, st_ in enumerate(models):
+                if mi_ in targets:
+                    watch[mi_] = snap(st_)
+                elif not same_model(st_, watch[mi_], f"model {mi_}, which is not involved in {what}", "11-bystander", op=what):
+                    watch[mi_] = snap(st_)
+
+        watch = [snap(st_) for st_ in models]
         for j, op in enumerate(plan["ops"]):
             kind = op["op"]
             run.log.add("op", kind, j)
+            if j > 0:
+                prev = plan["ops"][j - 1]
+                bystanders_unchanged({prev.get("m"), prev.get("dst")} - {None}, f"op {j - 1} ({prev['op']})")
             if kind == "randomise":
                 randomise(models[op["m"]], op["pseed"], op["scale"])
                 trace.append("rand")
@@ -280,6 +293,7 @@ def execute(plan):
                     durability("after crash and restart")
                     models = build_models(generation)
                     mds = [_make_md(k, torch) for k in cfg["md_slots"]]
+                    watch = [snap(st_) for st_ in models]
                     continue
                 # the process is alive: save must not have touched model or metadata
                 same_model(st, pre, f"model after save (op {j}, outcome {outcome})", "11-side-effect-model", md_kind=md_kind)
@@ -395,6 +409,9 @@ def execute(plan):
                 trace.append(("autoload", rec["sig"][0]))
             seamed = rng.check_global()
             del seamed
+        if plan["ops"]:
+            prev = plan["ops"][-1]
+            bystanders_unchanged({prev.get("m"), prev.get("dst")} - {None}, f"op {len(plan['ops']) - 1} ({prev['op']})")
     run.trace = trace
     run.nontrivial = compared > 0 or sum(v for k, v in run.faults.items() if k in ("enospc", "eio", "crash_write")) > 0
     run.sim["ops"] += len(plan["ops"])
